@@ -15,6 +15,7 @@ void harness(void){
 #endif
   int r = snoopy_output_socketoutput(msg, arg);
   __CPROVER_assert(verif_fd_open == 0, "socket output: the socket is closed again on every path");
+  VERIF_ASSERT_SIGNALS_UNTOUCHED();
 #ifndef H_FAIL
   if (len == 0) { __CPROVER_assert(verif_nev == 0 && r == SNOOPY_OUTPUT_GRACEFUL_DISCARD, "socket output: empty message produces nothing"); }
   else {
